@@ -1064,4 +1064,110 @@ theorem runW_cap (cfg : Cfg) (ops : List Op) (w : World) : (runW cfg w ops).cap 
   | nil => rfl
   | cons op t ih => simp only [List.foldl_cons]; rw [ih, step_cap]
 
+
+/-- the pool switch and the service's liveness; only `disable` changes them -/
+def flags (w : World) : Bool × Bool := (w.enabled, w.svcAlive)
+
+theorem dropHandle_flags (w : World) (id : Nat) : flags (dropHandle w id) = flags w := by
+  unfold dropHandle
+  split
+  · rfl
+  · split
+    · split <;> rfl
+    · rfl
+
+theorem bindSlot_flags (w : World) (s id : Nat) : flags (bindSlot w s id) = flags w := by
+  unfold bindSlot
+  cases w.slots.lookup s with
+  | none => rfl
+  | some o => simp only; rw [dropHandle_flags]; rfl
+
+theorem dropSlot_flags (w : World) (s : Nat) : flags (dropSlot w s) = flags w := by
+  unfold dropSlot
+  cases w.slots.lookup s with
+  | none => rfl
+  | some o => simp only; rw [dropHandle_flags]; rfl
+
+theorem cloneSlot_flags (w : World) (s s2 : Nat) : flags (cloneSlot w s s2) = flags w := by
+  unfold cloneSlot
+  cases w.slots.lookup s with
+  | none => rfl
+  | some o => simp only; rw [bindSlot_flags]
+
+theorem foldl_cloneSlot_flags (ss : List Nat) (s0 : Nat) (w : World) :
+    flags (ss.foldl (fun w s => cloneSlot w s0 s) w) = flags w := by
+  induction ss generalizing w with
+  | nil => rfl
+  | cons s t ih => simp only [List.foldl_cons]; rw [ih, cloneSlot_flags]
+
+theorem acquire_flags (cfg : Cfg) (w : World) (r : Req) : flags (acquire cfg w r).1 = flags w := by
+  unfold acquire
+  cases w.pool <;> simp only <;> rw [bindSlot_flags] <;> rfl
+
+theorem noteConn_flags (w : World) (c : Option Nat) : flags (noteConn w c) = flags w := by
+  unfold noteConn; cases c with
+  | none => rfl
+  | some c => simp only; split <;> rfl
+
+theorem serve_flags (cfg : Cfg) (w : World) (r : Req) (acts : List Act) :
+    flags (serve cfg w r acts).1 = flags w := by
+  unfold serve
+  simp only
+  split
+  · rw [noteConn_flags, acquire_flags]
+  · rw [dropSlot_flags, foldl_cloneSlot_flags]
+    show flags (noteConn _ _) = _
+    rw [noteConn_flags, acquire_flags]
+
+theorem step_flags (cfg : Cfg) (w : World) (op : Op) :
+    flags (step cfg w op).1 = (match op with | .disable => (false, false) | _ => flags w) := by
+  cases op <;> simp only [step]
+  · split
+    · exact serve_flags cfg w _ _
+    · rfl
+  · split
+    · rfl
+    · exact dropSlot_flags _ _
+  · split
+    · rfl
+    · split <;> rfl
+  · split
+    · rfl
+    · unfold modifyHeap; split <;> rfl
+  · split
+    · rfl
+    · exact cloneSlot_flags _ _ _
+  · rfl
+  · rfl
+
+/-- a dropped service has a disabled pool -/
+theorem runW_dead_disabled (cfg : Cfg) (ops : List Op) (w : World)
+    (h : w.svcAlive = false → w.enabled = false) :
+    (runW cfg w ops).svcAlive = false → (runW cfg w ops).enabled = false := by
+  unfold runW
+  induction ops generalizing w with
+  | nil => exact h
+  | cons op t ih =>
+    simp only [List.foldl_cons]
+    apply ih
+    have hf := step_flags cfg w op
+    have h1 : (step cfg w op).1.enabled = (flags (step cfg w op).1).1 := rfl
+    have h2 : (step cfg w op).1.svcAlive = (flags (step cfg w op).1).2 := rfl
+    rw [h1, h2, hf]
+    cases op <;> first | exact h | (intro; rfl)
+
+/-- nothing is bound, nothing is pooled ⇒ nothing is allocated -/
+theorem heap_empty_of_unreferenced {cfg : Cfg} {w : World} (h : Inv cfg w)
+    (hs : w.slots = []) (hp : w.pool = []) : w.heap = [] := by
+  cases hh : w.heap with
+  | nil => rfl
+  | cons e t =>
+    obtain ⟨a, b⟩ := e
+    have hg : w.heap.get a = some b := by
+      unfold Heap.get; rw [hh]; simp
+    rcases h.noGarbage _ _ hg with hx | hx | ⟨e', he', _⟩
+    · cases hx
+    · rw [hp] at hx; cases hx
+    · rw [hs] at he'; cases he'
+
 end ActixModel.ReqPool
